@@ -201,8 +201,9 @@ def run(ctx: Ctx) -> None:
     sp = noise.methods["_setup_proto"]
     gs = cfg_of(ctx, sp)
     fn_calls = [c for c in own_nodes(sp.node) if isinstance(c, ast.Call) and isinstance(c.func, ast.Attribute) and c.func.attr == "from_name"]
-    okp = len(fn_calls) == 1 and fn_calls[0].args and isinstance(fn_calls[0].args[0], ast.Constant) and fn_calls[0].args[0].value == SPEC_PATTERN
-    ctx.ob("C03.R5", sp, "Noise pattern name", bool(okp), f"{norm(fn_calls[0].args[0]) if fn_calls and fn_calls[0].args else None}")
+    pat_e = call_arg(fn_calls[0], 0, "name") if len(fn_calls) == 1 else None
+    pat_v = ctx.sym.eval(pat_e, sp.module.name) if pat_e is not None else None
+    ctx.ob("C03.R5", sp, "Noise pattern name", pat_v == SPEC_PATTERN, f"{norm(pat_e) if pat_e is not None else None} = {pat_v!r}")
 
     def ev(n: Node):
         out = []
@@ -216,10 +217,17 @@ def run(ctx: Ctx) -> None:
     ctx.ob("C03.R5", sp, "initiator role, PSK and prologue are set before start_handshake", bool(sh) and all({"set_as_initiator", "set_psks", "set_prologue"} <= b.get(n, frozenset()) for n in sh), f"{[sorted(b.get(n, frozenset())) for n in sh]}")
     ctx.ob("C03.R5", sp, "start_handshake on every path", "start_handshake" in b.get(gs.exit, frozenset()), "")
     pro = [c for c in own_nodes(sp.node) if isinstance(c, ast.Call) and isinstance(c.func, ast.Attribute) and c.func.attr == "set_prologue"]
-    ctx.ob("C03.R5", sp, "prologue", len(pro) == 1 and pro[0].args and isinstance(pro[0].args[0], ast.Constant) and pro[0].args[0].value == SPEC_PROLOGUE, f"{norm(pro[0].args[0]) if pro and pro[0].args else None}")
+    pro_v = ctx.sym.eval(pro[0].args[0], sp.module.name) if len(pro) == 1 and pro[0].args else None
+    ctx.ob("C03.R5", sp, "prologue", pro_v == SPEC_PROLOGUE, f"{norm(pro[0].args[0]) if pro and pro[0].args else None} = {pro_v!r}")
     psk = [c for c in own_nodes(sp.node) if isinstance(c, ast.Call) and isinstance(c.func, ast.Attribute) and c.func.attr == "set_psks"]
     dn = noise.methods["_decode_noise_psk"]
-    ctx.ob("C03.R5", sp, "PSK is the validated, decoded key", len(psk) == 1 and psk[0].args and isinstance(psk[0].args[0], ast.Call) and dn in res.callees(sp, psk[0].args[0]).funcs, "")
+    parg = psk[0].args[0] if len(psk) == 1 and psk[0].args else None
+    if isinstance(parg, ast.Name):
+        pdefs = [n.value for n in own_nodes(sp.node) if isinstance(n, (ast.Assign, ast.AnnAssign)) and n.value is not None and any(isinstance(t, ast.Name) and t.id == parg.id for t in (n.targets if isinstance(n, ast.Assign) else [n.target]))]
+        ok_psk = bool(pdefs) and all(isinstance(d, ast.Call) and dn in res.callees(sp, d).funcs for d in pdefs)
+    else:
+        ok_psk = isinstance(parg, ast.Call) and dn in res.callees(sp, parg).funcs
+    ctx.ob("C03.R5", sp, "PSK is the validated, decoded key", ok_psk, f"{norm(parg) if parg is not None else None}")
     stored = [val for st_, tgt, val in attr_writes(sp, "_proto")]
     ctx.ob("C03.R5", sp, "the configured Noise state is the one used later", len(stored) == 1 and fn_calls and norm(stored[0]) in [norm(t) for n in own_nodes(sp.node) if isinstance(n, ast.Assign) and n.value is fn_calls[0] for t in n.targets], "")
     hello = ctx.sym.resolve_name("_frame_helper.noise", "NOISE_HELLO")
@@ -230,8 +238,18 @@ def run(ctx: Ctx) -> None:
     detail = ""
     if len(wb) == 1 and wb[0].args:
         j = wb[0].args[0]
+        parts = None
         if isinstance(j, ast.Call) and isinstance(j.func, ast.Attribute) and j.func.attr == "join" and isinstance(j.func.value, ast.Constant) and j.func.value.value == b"" and isinstance(j.args[0], (ast.Tuple, ast.List)):
             parts = j.args[0].elts
+        elif isinstance(j, ast.BinOp) and isinstance(j.op, ast.Add):
+            # a + b + c + d is the same concatenation
+            parts = []
+            cur = j
+            while isinstance(cur, ast.BinOp) and isinstance(cur.op, ast.Add):
+                parts.insert(0, cur.right)
+                cur = cur.left
+            parts.insert(0, cur)
+        if parts is not None:
             hv = None
             for n in own_nodes(shh.node):
                 if isinstance(n, ast.Assign) and isinstance(n.value, ast.Call) and isinstance(n.value.func, ast.Attribute) and n.value.func.attr == "write_message":
@@ -242,7 +260,7 @@ def run(ctx: Ctx) -> None:
                 roles_ = [byte_role(x) for x in hdr] if hdr else []
                 # keep the handshake variable symbolic
                 roles_txt = [(a, b.replace(f"self._proto.write_message()", hv)) for a, b in roles_]
-                okl = p0 == SPEC_HELLO and roles_txt == [("const", "1"), ("hi", f"len({hv}) + 1"), ("lo", f"len({hv}) + 1")] and isinstance(parts[2], ast.Constant) and parts[2].value == b"\x00" and norm(parts[3]) == hv
+                okl = p0 == SPEC_HELLO and roles_txt == [("const", "1"), ("hi", f"len({hv}) + 1"), ("lo", f"len({hv}) + 1")] and ctx.sym.eval(parts[2], shh.module.name) == b"\x00" and norm(parts[3]) == hv
                 detail = f"{p0!r} {roles_txt} {norm(parts[2])} {norm(parts[3])}"
     ctx.ob("C03.R5", shh, "first write = hello bytes, 0x01, be16(len+1), 0x00, handshake message", okl, detail)
     cm = noise.methods["connection_made"]
